@@ -435,10 +435,22 @@ func (r *renderer) dir(d *Dir, depth int) {
 	bare := d.Kw == "Description"
 	// a trailing comment is not attempted after a /* */ annotation: the scanner
 	// then is already in the directive's body state, where '#' is body content
+	awaitsBody := (IsCode(d.Kw) || d.Kw == "Request" || d.Kw == "Body" || d.Kw == "TYPE" || d.Kw == "ENUM" || d.Kw == "Headers" || d.Kw == "Query" || d.Kw == "Path" || d.Kw == "Params" || d.Kw == "Result") &&
+		!(d.Schema != nil && d.Schema.AsParam)
 	if !bare && !annBlock && r.chance("trailing-comment", r.st.TrailComment) {
-		r.write(" # " + commentTexts[r.pick("ctext", len(commentTexts))])
+		if awaitsBody {
+			r.write(" # " + commentTexts[r.pick("ctext", len(commentTexts))])
+		} else {
+			r.write(" " + r.lineComment())
+		}
 	}
 	r.newline()
+	if (IsCode(d.Kw) || d.Kw == "Request" || d.Kw == "Body" || d.Kw == "TYPE" || d.Kw == "ENUM" || d.Kw == "Headers" || d.Kw == "Query" || d.Kw == "Path" || d.Kw == "Params" || d.Kw == "Result") &&
+		!(d.Schema != nil && d.Schema.AsParam) {
+		// the scanner now waits for a body: what follows is read like the text
+		// after a body (see afterBody)
+		r.afterBody = true
+	}
 	explicit := d.Explicit
 	if !explicit && len(d.Children) > 0 && CanBeExplicit(d) && r.styleParensOK(d) && r.chance("explicit-parens", r.st.Parens) {
 		explicit = true
